@@ -40,6 +40,9 @@ func main() {
 		os.Exit(KillMain(os.Args[2], seed, ka, os.Args[5]))
 	case "replay":
 		n := 10
+		if x, err := strconv.Atoi(os.Getenv("VERIF_REPLAY_N")); err == nil && x > 0 {
+			n = x
+		}
 		os.Exit(fw.ReplayMain(os.Args[2], os.Args[3], n))
 	default:
 		fmt.Fprintln(os.Stderr, "unknown command")
